@@ -47,7 +47,7 @@ def netlist_model(draw, min_modules=1, max_modules=6, kinds=("soft", "soft", "ha
             else:
                 m["area"] = {"_": draw(_i(1, 60))}
                 m["area_scalar"] = draw(_i(0, 4)) != 0
-            shape = draw(_i(0, 3))
+            shape = draw(st.sampled_from([0, 1, 2, 2, 3]))
             if shape == 1:  # packed rectangles, possibly in regions
                 rs = draw(L.packing(10, 10, 1, 4, 5))
                 m["rects"] = [[r[0] + ox, r[1] + oy, r[2] + ox, r[3] + oy,
@@ -56,7 +56,22 @@ def netlist_model(draw, min_modules=1, max_modules=6, kinds=("soft", "soft", "ha
                     r = m["rects"][0]
                     m["rects"].append([r[0], r[1], r[2] + 1, r[3] + 2, None])
             elif shape == 2:
-                rs, _ = draw(stog_rects(ox, oy))
+                # (one time in three on a ten times finer scale: sizes such as 0.5, 0.7, 1.4, 3, 2 - ints and floats in one module)
+                rs, roles = draw(stog_rects(ox, oy))
+                if draw(_i(0, 2)) == 0:
+                    # the same orthogon ten times larger, with branch depths that are not multiples of ten: on a 0.1 lattice the trunk
+                    # then has integral sizes (ints in the document) and the branches fractional ones (floats)
+                    rs = [[v * 10 for v in r] for r in rs]
+                    for r, role in zip(rs, roles):
+                        dlt = draw(_i(1, 9))
+                        if role == "N":
+                            r[3] -= dlt
+                        elif role == "S":
+                            r[1] += dlt
+                        elif role == "E":
+                            r[2] -= dlt
+                        elif role == "W":
+                            r[0] += dlt
                 if draw(st.booleans()):
                     rs = list(draw(st.permutations(rs)))  # the trunk need not be listed first: recognition will reorder the list
                 m["rects"] = [r + [None] for r in rs]
@@ -70,6 +85,8 @@ def netlist_model(draw, min_modules=1, max_modules=6, kinds=("soft", "soft", "ha
         elif kind in ("hard", "fixed"):
             if draw(st.booleans()):
                 rs, _ = draw(stog_rects(ox, oy))
+                if draw(st.booleans()):
+                    rs = list(draw(st.permutations(rs)))  # (the trunk need not be listed first)
                 stog = True
             else:
                 rs = [[r[0] + ox, r[1] + oy, r[2] + ox, r[3] + oy] for r in draw(L.packing(8, 8, 1, 4, 4))]
